@@ -42,7 +42,7 @@ SEMANTICS_ASSUMED = [
     "machine floating point treated as mathematical reals (no rounding, NaN or inf)",
     "fixed-width integers treated as mathematical integers (no overflow)",
     "termination is not proved",
-    "Python semantics as encoded in pyvc/symex.py (cross-checked against CPython on concrete runs)",
+    "Python semantics as encoded in pyvc/symex.py (not cross-checked against CPython as a whole: every refutation is replayed on the real interpreter, library contracts are spot-checked by tools/conform.py)",
 ]
 
 
@@ -582,7 +582,11 @@ def check_property(pid, tier="quick", seed=0, bounded_hooks=None, only=None, wri
             run.faults.append(f"{c.key}: no live path")
             continue
         if c.ignore:
+            dropped = [o for o in rep.obligations if any(s_ in o[0] for s_ in c.ignore)]
             rep.obligations = [o for o in rep.obligations if not any(s_ in o[0] for s_ in c.ignore)]
+            if dropped:
+                run.extra_assumptions.append(f"{c.key}: {len(dropped)} generated obligation(s) matching {c.ignore} are not "
+                                             f"obligations of this function by its contract (reason in the contract's docstring / comment)")
         sel = c.only.get(pid)
         if sel:
             rep.obligations = [o for o in rep.obligations if any(s_ in o[0] for s_ in sel)]
